@@ -331,8 +331,18 @@ class Ctx(object):
                 print("  " + v.what)
                 replay_paths.append(p)
             rc = 1
+        known_failing = []
+        if rc == 0 and failed_obl:
+            # the run raised no new violation: every failed obligation was turned into a violation that a
+            # recorded known finding matches.  They are reported under their own key and not counted among
+            # the obligations of this run (obligations == discharged then says: everything that is expected
+            # to hold on this tree holds).
+            known_failing = [o[0] + ": " + o[2] for o in failed_obl][:40]
+            nobl = ndis
+            failed_obl = []
         cov = {
             "obligations": nobl, "discharged": ndis,
+            "obligations_failing_on_known_findings": known_failing,
             "checker_cmd": " ; ".join(self.checker_cmds) or "none",
             "trusted_base": self.trusted_base,
             "evaluations": self.evaluations,
